@@ -119,6 +119,8 @@ def register(w):
         return [("every_node_has_an_output", z3.ForAll([n], sel(ex.heap_arrays(NODE, "outputs")[1], n) >= 1)),
                 ("transpose_and_reducemean_nodes_have_one_output", z3.ForAll([n], z3.Implies(single, sel(ex.heap_arrays(NODE, "outputs")[1], n) == 1)))]
 
+    w.txn_unobserved_except, w.txn_wf = unobserved_except, wf
+
     def t3_hook(lc):
         ex = lc.ex
         graph = lc["graph"].term
@@ -251,4 +253,101 @@ def register(w):
         goal = z3.Implies(inv(p, q), Tr(q, RM(A, Tr(p, x))) == RM(img(p, A), x))
         return ([A1, A5], goal)
     w.add_contract(Contract(f"{MO}:<law-T3>", kind="lemma", ensures=[("transpose_reducemean_transpose_equals_reducemean_over_mapped_axes", lemma_t3)], props=["C02", "C12"]))
+    register_t11(w)
     w.trust("A1 Tr(q,Tr(p,x)) = x for mutually inverse p,q; A5 ReduceMean(keepdims=1) commutes with Transpose when the axes are mapped through the permutation (ONNX operator definitions; numerically validated by the witness families)")
+
+
+# =====================================================================
+# T11  remove_identity_reshapes_ir:  Reshape(x, s) with s = declared all-integer shape of x   ==>   x
+# =====================================================================
+def register_t11(w):
+    sel = z3.Select
+    G, C8 = w.graph, w.c08
+    const_len, const_at = w.graph_const
+    unobserved_except, wf = w.txn_unobserved_except, w.txn_wf
+
+    # _shapes_match_exact(src_dims, target): True only if same length and every declared dim is the integer target[k]
+    def post_match(c: Ctx):
+        s, t, r = c["src_dims"], c["target_dims"], c.result
+        if isinstance(s, VNone):
+            return z3.Not(r.term)
+        k = z3.Int("k")
+        tag, iv = s.arrs[0], s.arrs[1]
+        return z3.Implies(r.term, z3.And(s.length == t.length, z3.ForAll([k], z3.Implies(z3.And(0 <= k, k < t.length), z3.And(sel(tag, k) == 0, sel(iv, k) == sel(t.arrs[0], k))))))
+
+    def inv_match(lc):
+        s, t = lc["src_dims"], lc["target_dims"]
+        k = z3.Int("k")
+        return [("prefix_equal_ints", z3.ForAll([k], z3.Implies(z3.And(0 <= k, k < lc.idx), z3.And(sel(s.arrs[0], k) == 0, sel(s.arrs[1], k) == sel(t.arrs[0], k)))))]
+
+    def replay_match(model, args):
+        import importlib
+        import itertools
+        import onnx_ir as ir
+        mod = importlib.import_module(MO)
+        pool = [0, 1, 2, 3, ir.SymbolicDim("B"), ir.SymbolicDim(None)]
+        for n in range(0, 4):
+            for src in itertools.product(pool, repeat=n):
+                for m in range(0, 4):
+                    for tgt in itertools.product((0, 1, 2, 3), repeat=m):
+                        if mod._shapes_match_exact(tuple(src), tuple(tgt)) and not (n == m and all(isinstance(a, int) and a == b for a, b in zip(src, tgt))):
+                            return True, f"_shapes_match_exact({src}, {tgt}) returned True"
+        if mod._shapes_match_exact(None, (1,)):
+            return True, "_shapes_match_exact(None, (1,)) returned True"
+        return False, "all dim tuples up to length 3 over {0..3, B, unknown} consistent"
+
+    w.add_contract(Contract(
+        f"{MO}:_shapes_match_exact", replay=replay_match, params={"src_dims": Opt(Seq(ctxmodel.IRDIM)), "target_dims": Seq(Int)}, ret=Bool, raises=set(),
+        ensures=[("true_only_for_equal_integer_dims", post_match)], loops={0: LoopSpec(invariant=inv_match, label="dims")}, props=["C02", "C08"], witnesses=["C02_identity_reshape_family"],
+    ))
+
+    def hook(lc):
+        ex = lc.ex
+        graph = lc["graph"].term
+        if lc.phase == "assume":
+            ex.events[:] = [e for e in ex.events if not (e and e[0] == "mut")]
+            return wf(ex, graph)
+        E = muts(ex)
+        obl = wf(ex, graph)
+        if lc.phase != "inv-step" or not E:
+            return obl
+        kinds = [e[1] for e in E]
+        node = lc.get("node")
+        hv0 = E[0][-2]["hv"]
+        P = Pre(ex, E[0][-3])
+        ok = kinds == ["rauw", "remove"] and isinstance(node, VRef)
+        obl.append(("txn-effect:T11.events_are_bypass_remove", z3.BoolVal(ok)))
+        if not ok:
+            return obl
+        rauw, rem = E
+        a_old, b_new = rauw[2].term, rauw[3].term
+        obl.append(("txn-effect:T11.reshape_output_replaced_by_its_data_input_everywhere", z3.And(a_old == P.out(node.term, 0), b_new == P.inp(node.term, 0), b_new != null_of(VALUE), ex.truthy(rauw[4]), rem[3].term == node.term, rem[2].term == graph)))
+        # facts: a Reshape whose constant target is exactly the declared (hence, by C08, the run-time) shape of its input
+        shp, dims = P.arrays(VALUE, "shape")[0], P.arrays(SHAPE, "dims")
+        s_in = sel(shp, b_new)
+        tag, iv, ln = sel(dims[0], s_in), sel(dims[1], s_in), sel(dims[-1], s_in)
+        tv = P.inp(node.term, 1)
+        k = z3.Int("k")
+        obl.append(("txn-facts:T11.node_is_a_reshape_to_the_declared_integer_shape_of_its_input", z3.And(
+            P.op(node.term) == z3.StringVal("Reshape"), P.n_in(node.term) >= 2, s_in != null_of(SHAPE), tv != null_of(VALUE),
+            ln == const_len(tv, hv0), ln >= 1,
+            z3.ForAll([k], z3.Implies(z3.And(0 <= k, k < ln), z3.And(sel(tag, k) == 0, sel(iv, k) == const_at(tv, hv0, k), const_at(tv, hv0, k) != 0, const_at(tv, hv0, k) != -1))))))
+        return obl
+
+    w.add_contract(Contract(
+        f"{MO}:remove_identity_reshapes_ir", params={"graph": Ref(GRAPH)},
+        requires=[("valid_graph", lambda c: z3.And([f for _, f in wf(c.ex, c["graph"].term)]))],
+        loops={0: LoopSpec(invariant=hook, label="transactions"), 1: LoopSpec(heap_unchanged=True, label="scan")},
+        track_alloc=True, ret=NoneT, props=["C02", "C08"], opaque_externals=True, witnesses=["C02_identity_reshape_family"],
+        modifies=[(NODE, "inputs"), (GRAPH, "nodes"), (GRAPH, "outputs")],
+    ))
+
+    def lemma(world):
+        T, S = z3.DeclareSort("TensorL"), z3.DeclareSort("ShapeL")
+        Reshape = z3.Function("ReshapeL", T, S, T)
+        shape_of = z3.Function("shapeL", T, S)
+        x = z3.Const("x", T)
+        A7 = z3.ForAll([x], Reshape(x, shape_of(x)) == x)
+        return ([A7], Reshape(x, shape_of(x)) == x)
+    w.add_contract(Contract(f"{MO}:<law-T11>", kind="lemma", ensures=[("reshape_to_own_shape_is_identity", lemma)], props=["C02"]))
+    w.trust("A7 Reshape(x, shape(x)) = x for a target without 0/-1 entries (ONNX Reshape definition); declared integer dims are the run-time dims (C08 before the pass)")
